@@ -77,15 +77,52 @@ class Arch {
   friend bool operator>=(const Arch &a, const Arch &b) { return a._v >= b._v; }
 };
 
+// WrapD: a second archetype with the same minimal interface, over double.  A program instantiated
+// with WrapD must produce bit-identical results to the same program instantiated with double: the
+// library may use nothing of `double` beyond the documented operations.
+class WrapD {
+  double _v;
+  struct Raw {};
+  WrapD(Raw, double v) : _v(v) {}
+
+ public:
+  WrapD() : _v(0) {}
+  WrapD(const WrapD &) = default;
+  WrapD &operator=(const WrapD &) = default;
+  template <typename I, std::enable_if_t<std::is_integral_v<I>, bool> = true>
+  explicit WrapD(I i) : _v(static_cast<double>(i)) {}
+  template <typename D, std::enable_if_t<std::is_floating_point_v<D>, bool> = true>
+  WrapD(D) = delete;
+  static WrapD raw(double v) { return WrapD(Raw{}, v); }
+  double rep() const { return _v; }
+  WrapD &operator+=(const WrapD &o) { _v += o._v; return *this; }
+  WrapD &operator-=(const WrapD &o) { _v -= o._v; return *this; }
+  WrapD &operator*=(const WrapD &o) { _v *= o._v; return *this; }
+  WrapD &operator/=(const WrapD &o) { _v /= o._v; return *this; }
+  friend WrapD operator+(const WrapD &a, const WrapD &b) { return raw(a._v + b._v); }
+  friend WrapD operator-(const WrapD &a, const WrapD &b) { return raw(a._v - b._v); }
+  friend WrapD operator*(const WrapD &a, const WrapD &b) { return raw(a._v * b._v); }
+  friend WrapD operator/(const WrapD &a, const WrapD &b) { return raw(a._v / b._v); }
+  WrapD operator-() const { return raw(-_v); }
+  friend bool operator==(const WrapD &a, const WrapD &b) { return a._v == b._v; }
+  friend bool operator!=(const WrapD &a, const WrapD &b) { return a._v != b._v; }
+  friend bool operator<(const WrapD &a, const WrapD &b) { return a._v < b._v; }
+  friend bool operator<=(const WrapD &a, const WrapD &b) { return a._v <= b._v; }
+  friend bool operator>(const WrapD &a, const WrapD &b) { return a._v > b._v; }
+  friend bool operator>=(const WrapD &a, const WrapD &b) { return a._v >= b._v; }
+};
+
 // The archetype really is minimal: no implicit conversions from built-in numbers,
 // no numeric_limits, no stream output.
 static_assert(!std::is_convertible_v<int, Arch> && !std::is_convertible_v<double, Arch> &&
               !std::is_convertible_v<Arch, double> && !std::is_constructible_v<Arch, double>);
-static_assert(!std::numeric_limits<Arch>::is_specialized);
+static_assert(!std::numeric_limits<Arch>::is_specialized && !std::numeric_limits<WrapD>::is_specialized);
+static_assert(!std::is_convertible_v<double, WrapD> && !std::is_convertible_v<int, WrapD> && !std::is_convertible_v<WrapD, double>);
 
 #include <bspline/Core.h>
 #include <bspline/interpolation/interpolation.h>
-#ifdef VERIF_FP
+#if defined(VERIF_FP) && !defined(VERIF_NO_QUAD)
+#define VERIF_QUAD 1
 #include <algorithm>
 #include <bspline/integration/numerical.h>
 #endif
@@ -135,6 +172,12 @@ struct ScalarIO<T, std::enable_if_t<std::is_floating_point_v<T>>> {
     }
     return buf;
   }
+};
+
+template <>
+struct ScalarIO<WrapD> {
+  static WrapD make(const char *n, const char *d) { return WrapD::raw(ScalarIO<double>::make(n, d)); }
+  static std::string str(const WrapD &x) { return ScalarIO<double>::str(x.rep()); }
 };
 
 inline S Q(const char *n, const char *d = "1") { return ScalarIO<S>::make(n, d); }
